@@ -290,7 +290,18 @@ func (ex *Exec) fieldSpecFor(arr string) (*FieldSpec, string) {
 		return nil, ""
 	}
 	key := strings.TrimPrefix(arr, "H.")
-	return ex.specs.Fields[key], key
+	if fs := ex.specs.Fields[key]; fs != nil {
+		return fs, key
+	}
+	// struct-wide default: longest declared type prefix
+	for i := len(key) - 1; i > 0; i-- {
+		if key[i] == '.' {
+			if d := ex.specs.FieldDefaults[key[:i]]; d != nil {
+				return d, key
+			}
+		}
+	}
+	return nil, key
 }
 
 func (ex *Exec) discipline(st *State, fr *Frame, instr ssa.Instruction, p Val, isWrite bool) {
@@ -340,14 +351,14 @@ func (ex *Exec) disciplineMap(st *State, fr *Frame, instr ssa.Instruction, m Val
 	if key == "" || !ex.inScopeField(key) || m.OriginRef == "" {
 		return
 	}
-	if fs != nil && fs.Disc == "init_only_map" {
-		// map header and contents are written only before publication
-		ex.checkField(st, fr, instr, &FieldSpec{Key: fs.Key, Disc: "init_only"}, key, m.OriginRef, isWrite)
+	if fs != nil && fs.Disc == "init_only" && fs.Lock != "" {
+		// init_only header, contents guarded by Lock
+		ex.checkField(st, fr, instr, &FieldSpec{Key: fs.Key, Disc: "guarded_by", Lock: fs.Lock, Readers: fs.Readers}, key, m.OriginRef, isWrite)
 		return
 	}
-	if fs != nil && fs.Disc == "init_only" && fs.Arg != "" {
-		// init_only header, contents guarded_by Arg
-		ex.checkField(st, fr, instr, &FieldSpec{Key: fs.Key, Disc: "guarded_by", Arg: fs.Arg, Args: fs.Args}, key, m.OriginRef, isWrite)
+	if fs != nil && fs.Disc == "init_only" {
+		// map header and contents are written only before publication
+		ex.checkField(st, fr, instr, fs, key, m.OriginRef, isWrite)
 		return
 	}
 	ex.checkField(st, fr, instr, fs, key, m.OriginRef, isWrite)
@@ -391,9 +402,7 @@ func (ex *Exec) checkField(st *State, fr *Frame, instr ssa.Instruction, fs *Fiel
 	goal := "false"
 	switch fs.Disc {
 	case "guarded_by":
-		root := key[:strings.LastIndex(key, ".")]
-		lk := root + "." + fs.Arg
-		// fields of an embedded anonymous struct guarded by a sibling mutex: Arg may be a path
+		lk := ex.lockKeyFor(key, fs.Lock)
 		var alts []string
 		for _, h := range st.held {
 			if h.Key == lk {
@@ -405,9 +414,9 @@ func (ex *Exec) checkField(st *State, fr *Frame, instr ssa.Instruction, fs *Fiel
 			}
 		}
 		goal = smtOr(alts...)
-		// reads by the single writer do not need the lock
-		if !isWrite && len(fs.Args) > 1 {
-			for _, w := range fs.Args[1:] {
+		// reads by the declared single writer do not need the lock
+		if !isWrite {
+			for _, w := range fs.Readers {
 				if w == fr.key || w == ex.curKey {
 					goal = "true"
 				}
@@ -425,8 +434,8 @@ func (ex *Exec) checkField(st *State, fr *Frame, instr ssa.Instruction, fs *Fiel
 		} else if isFreshRef(ref) && !ex.published(st, fr, ref) {
 			goal = "true"
 		} else {
-			for _, w := range fs.Args {
-				if w == fr.key {
+			for _, w := range fs.Inits {
+				if w == fr.key || w == ex.curKey {
 					goal = "true" // declared initialiser (runs before the object is shared)
 				}
 			}
@@ -460,4 +469,23 @@ func (ex *Exec) closeCensus(st *State, fr *Frame, instr ssa.Instruction, ch Val)
 		}
 	}
 	ex.closeSites[fr.key+" closes "+ch.Origin] = true
+}
+
+// lockKeyFor: lock key for a field key (Type.path.field) and a lock path relative to the struct type.
+func (ex *Exec) lockKeyFor(fieldKey, lockPath string) string {
+	// the struct type is the longest prefix that names a type
+	for i := len(fieldKey) - 1; i > 0; i-- {
+		if fieldKey[i] == '.' {
+			if ex.namedType(fieldKey[:i]) != nil {
+				// keep the longest: continue scanning leftwards only if this is not a type
+			}
+		}
+	}
+	parts := strings.Split(fieldKey, ".")
+	for n := len(parts) - 1; n >= 1; n-- {
+		if ex.namedType(strings.Join(parts[:n], ".")) != nil {
+			return strings.Join(parts[:n], ".") + "." + lockPath
+		}
+	}
+	return fieldKey[:strings.LastIndex(fieldKey, ".")] + "." + lockPath
 }
